@@ -179,6 +179,12 @@ func (g *G) genStep(cfg *MachineCfg, kind string) *world.Step {
 		return &world.Step{Kind: "tx", Tx: g.genDidTx()}
 	case "pnft":
 		return &world.Step{Kind: "tx", Tx: g.genPnftTx()}
+	case "sim_aol":
+		return g.genPerturb(g.genAolMsg, true)
+	case "sim_did":
+		return g.genPerturb(g.genDidMsg, true)
+	case "sim_pnft":
+		return g.genPerturb(g.genPnftMsg, false)
 	case "bank":
 		return &world.Step{Kind: "tx", Tx: g.genBankSend()}
 	case "authz":
